@@ -683,6 +683,8 @@ class Engine:
             return True
         if isinstance(v, SStr):
             raise Unsupported('truthiness of opaque str')
+        if isinstance(v, SOpaque) and v.kind == 'unspecified-result':
+            raise Unsupported('truth value of %s, whose result no contract specifies' % v.ident)
         return True
 
     def decide(self, v, site=''):
